@@ -99,3 +99,44 @@ def replay_serializer_sink_buffers(w, rec):
 
 
 REPLAYS['ThriftMuxMessageSerializerSink.AsyncProcessRequest'] = replay_serializer_sink_buffers
+
+
+def replay_send_ping(w, rec):
+  """Only the send loop writes to the socket: a ping goes through the send queue like every other frame (two writers
+  would interleave frames), and each ping gets its own timeout helper."""
+  import gevent
+  from gevent.queue import Queue
+  from scales.thriftmux.sink import SocketTransportSink
+  writes = []
+  class Sock(object):
+    def write(self, data):
+      writes.append(data)
+  s = SocketTransportSink.__new__(SocketTransportSink)
+  s._socket = Sock()
+  s._send_queue = Queue()
+  s._ping_msg = b'PINGFRAME'
+  s._EMPTY_DCT = {}
+  s._ping_timeout = 0.01
+  s._ping_ar = None
+  class L(object):
+    def __getattr__(self, n):
+      return lambda *a, **k: None
+  s._log = L()
+  s._varz = L()
+  shut = []
+  s._Shutdown = lambda *a, **k: shut.append(a)
+  bad = []
+  try:
+    ar = s._SendPingMessage()
+  except Exception as e:
+    return True, '_SendPingMessage raised %s: %s' % (type(e).__name__, e)
+  if writes:
+    bad.append('_SendPingMessage wrote %d bytes to the socket itself, bypassing the send loop (frames of concurrent requests can interleave with it)' % len(writes[0]))
+  if s._send_queue.qsize() != 1:
+    bad.append('the ping was not queued for the send loop (queue size %d)' % s._send_queue.qsize())
+  if ar is None or ar is not s._ping_ar:
+    bad.append('the returned result is not the pending ping result')
+  return bool(bad), '\n'.join(bad) or 'the ping is queued for the send loop'
+
+
+REPLAYS['SocketTransportSink_mux._SendPingMessage'] = replay_send_ping
